@@ -272,6 +272,40 @@ def crash_site(stderr):
     return "unknown"
 
 
+def background_panic_site(stderr):
+    """A worker that died of a Go panic raised in repository code (not in the runtime's own checks of
+    the harness, not in harness code, not an out-of-memory / signal death): returns the first
+    repository frame of the panicking goroutine, else None."""
+    lines = stderr.splitlines()
+    start = None
+    for i, l in enumerate(lines):
+        if l.startswith("panic:"):
+            start = i
+        if l.startswith("fatal error:"):
+            return None
+    if start is None:
+        return None
+    # the panicking goroutine's stack follows the first "goroutine N [running]:" after the panic line
+    j = start
+    while j < len(lines) and not (lines[j].startswith("goroutine ") and "[running" in lines[j]):
+        j += 1
+    for l in lines[j + 1:]:
+        l = l.strip()
+        if not l:
+            break
+        if l.startswith("/") or l.startswith("created by") or "(" not in l:
+            continue
+        fn = l[:l.rfind("(")]
+        if fn.startswith("runtime.") or fn.startswith("panic") or fn.startswith("runtime/") or fn.startswith("internal/") or fn.startswith("sync.") or fn.startswith("sync/"):
+            continue
+        leaf = fn[fn.rfind("/") + 1:]          # e.g. capture.(*LocalBuffer).Next
+        name = leaf.split(".")[-1]
+        if "els0r/goProbe/v4/" in fn and "/verifshim/" not in fn and not name.startswith("Verif"):
+            return leaf
+        return None  # the first frame that is not the runtime's belongs to the harness or a library
+    return None
+
+
 def load_known():
     p = os.path.join(VERIF, "known_findings.json")
     if not os.path.exists(p):
@@ -437,6 +471,20 @@ def run_built(args, seed, bins, missing_hooks, ovjson, pcfg, t0):
                 site = crash_site(c["stderr"])
                 v = {"case": c["case"], "signature": inf["CrashSig"] + ":" + site, "count": 1, "choices": [], "labels": [],
                      "message": "the worker process died while exploring case %d (rc=%s): %s" % (c["case"], c["rc"], c["stderr"][-2500:]),
+                     "log": c["stderr"][-6000:].splitlines()}
+                k = match_known(known, prop, v["signature"])
+                if k is not None:
+                    e = known_hits.setdefault(k["signature"], {"k": k, "count": 0})
+                    e["count"] += 1
+                else:
+                    violations.append((key, inf["Bound"], v))
+                continue
+            site = background_panic_site(c["stderr"]) if inf.get("PanicSig") else None
+            if site:
+                # "never panics" is part of this scenario's property: a panic inside repository code in a
+                # goroutine the scenario does not own kills the worker instead of reaching its recover()
+                v = {"case": c["case"], "signature": inf["PanicSig"] + ":background:" + site, "count": 1, "choices": [], "labels": [],
+                     "message": "the worker process died of a panic in a goroutine of the code under test while exploring case %d: %s" % (c["case"], c["stderr"][-2500:]),
                      "log": c["stderr"][-6000:].splitlines()}
                 k = match_known(known, prop, v["signature"])
                 if k is not None:
